@@ -32,24 +32,25 @@ Make(k) == /\ N < MaxObj /\ k \in Kinds /\ k # "Conformer"
            /\ last' = [act |-> "make", kind |-> k, equal |-> TRUE]
 
 (* cells that the deviation makes a copy share with its source *)
-SharedBy(r) == IF "SharedAttribOnEvolve" \in Deviations /\ r \in {"construct", "concat", "join", "upcast", "ensemble_from"}
+SharedBy(r) == IF "SharedAttribOnEvolve" \in Deviations /\ r \in {"construct", "concat", "or", "join", "upcast", "ensemble_from"}
                  THEN {"atomattr", "atomattr_e", "atomnest", "bondattr", "bondattr_e", "molnest"} ELSE {}
 
 (* cells of a product of TWO sources that are not defined by the first one: object-level attributes; for a join also the  *)
 (* second bond (the first fragment's bond to its attachment point is gone, the product's second bond is the other's)      *)
-NotInherited(r) == CASE r = "concat" -> {"molattr", "molnest"}
+NotInherited(r) == CASE r \in {"concat", "or"} -> {"molattr", "molnest"}
                      [] r = "join"   -> {"molattr", "molnest", "bondattr_e"}
                      [] OTHER        -> {}
 
 Copy(rt, i) ==
   /\ N < MaxObj /\ i \in 1..N /\ rt \in Routes /\ rt.from = objs[i].kind
-  /\ LET shared == SharedBy(rt.r)
+  /\ \E keep2 \in (IF rt.r = "join" THEN BOOLEAN ELSE {FALSE}) :      \* join: the product's second bond is the source's second bond
+     LET shared == SharedBy(rt.r)                                     \* unless that one led to the attachment point that was cut off
          g == Grp(ngrp)
+         inherits(c) == /\ c \in CellsOf[rt.to] \cap CellsOf[rt.from]
+                        /\ (c \notin NotInherited(rt.r) \/ (c = "bondattr_e" /\ keep2))
+                        /\ ~("DropCharges" \in Deviations /\ c = "chg" /\ rt.r \in {"construct", "concat", "join"})
      IN objs' = Append(objs, [kind |-> rt.to,
-                              cnt  |-> [c \in Cell |-> IF c \in CellsOf[rt.to] \cap CellsOf[rt.from]
-                                                          /\ c \notin NotInherited(rt.r)
-                                                          /\ ~("DropCharges" \in Deviations /\ c = "chg" /\ rt.r \in {"construct", "concat", "join"})
-                                                       THEN objs[i].cnt[c] ELSE 0],
+                              cnt  |-> [c \in Cell |-> IF inherits(c) THEN objs[i].cnt[c] ELSE 0],
                               grp  |-> [c \in Cell |-> IF c \in shared THEN objs[i].grp[c] ELSE g[c]],
                               view |-> 0, src |-> i])
   /\ ngrp' = ngrp + NC /\ UNCHANGED nmut
